@@ -46,7 +46,7 @@ LEVEL_TEXT = ("Model-based stateful testing of the graph builder and model conta
               "Exploration, not proof.")
 LEVEL_NOTE = "Trusts the node-count formula and snapshot function in this file and the C01 naive evaluator."
 
-NODE_COUNT = {"value": 1, "svar": 2, "calc": 1, "tcalc": 1, "tident": 1, "wvar": 2, "igcalc": 2, "scalc": 2}
+NODE_COUNT = {"value": 1, "svar": 2, "calc": 1, "tcalc": 1, "tident": 1, "wvar": 2, "igcalc": 2, "scalc": 2, "unode": 1, "pitvar": 2}
 
 
 def expected_nodes(spec):
